@@ -218,6 +218,19 @@ void RouterSession::checkPins(const char *when) {
             }
             if (bad) { probe("router.checkpoint-inside-an-obstacle-or-on-an-end-point-connector-not-judged"); continue; }
         }
+        {   // a shape this connector is pinned to touches (or is closer than twice the buffer to) another shape: the pin's way out may be
+            // walled in and the router then falls back to a straight line from the shape's centre.  Such scenes are not generated on
+            // purpose (they arise when an edit of the plan was refused by the executor and a later one moved a shape up against it)
+            bool walled = false; double bufd = params.count(P_buffer) ? params[P_buffer] : 0;
+            for (int e = 0; e < 2 && !walled; e++) if (c.e[e].kind == 1 && shapes.count(c.e[e].shape) && shapes[c.e[e].shape].alive) {
+                RectB a = bbox(shapes[c.e[e].shape].poly);
+                for (auto &sk2 : shapes) if (sk2.second.alive && sk2.first != c.e[e].shape) {
+                    RectB b2 = bbox(sk2.second.poly); double g = 2 * bufd + 1e-9;
+                    if (a.x <= b2.x + b2.w + g && b2.x <= a.x + a.w + g && a.y <= b2.y + b2.h + g && b2.y <= a.y + a.h + g) walled = true;
+                }
+            }
+            if (walled) { probe("router.pinned-shape-touches-another-shape-connector-not-judged"); continue; }
+        }
         std::vector<Pt> d = routePts(c.ref->displayRoute());
         if (d.size() < 2) { violate("C11", "route", "route-too-short", fmt("conn %d after %s", kv.first, when)); continue; }
         // the route's two ends, matched to the model's two attachments as an unordered pair
@@ -768,6 +781,28 @@ static Json genNudgeSession(Rng &r, const std::string &tier) {
                 Pt a = T(x0, y0), b = T(x1, y1); RectB c{std::min(a.x, b.x), std::min(a.y, b.y), std::fabs(a.x - b.x), std::fabs(a.y - b.y)};
                 Json o = Json::obj(); o.set("op", "addShape"); o.set("id", id); Json pj = Json::arr(); for (auto &q : rectPoly(c)) pj.push(ptJ(q)); o.set("poly", pj); o.set("rect", true); ops.push(o);
             };
+            if (r2.chance(0.4)) {
+                // variant: TWO checkpoints in line on the straight run that leaves the source, the route continuing past the second one
+                // before it turns; the turning segment may be centred in its channel only as far as the last checkpoint allows
+                cfg.set("style", "ortho+nudging+checkpoint-after-s-bend+two-in-line"); s.set("cfg", cfg);
+                double c1 = 10.0 * r2.range(5, 15), c2 = c1 + 10.0 * r2.range(8, 22);
+                shape(0, 250, 600, 350, 700);
+                Json a = Json::obj(); a.set("op", "addConn"); a.set("id", 0);
+                // (both ends are pins on little shapes: a direction-restricted free end would be left sideways)
+                auto pinned = [&](int id, double x0, double y0, double x1, double y1, double px, double py, unsigned dir) {
+                    Pt p0 = T(x0, y0), p1 = T(x1, y1), pp = T(px, py); RectB c{std::min(p0.x, p1.x), std::min(p0.y, p1.y), std::fabs(p0.x - p1.x), std::fabs(p0.y - p1.y)};
+                    Json o = Json::obj(); o.set("op", "addShape"); o.set("id", id); Json pj = Json::arr(); for (auto &q : rectPoly(c)) pj.push(ptJ(q)); o.set("poly", pj); o.set("rect", true);
+                    Json pins = Json::arr(); Json pin = Json::obj(); pin.set("cls", 1); pin.set("x", (pp.x - c.x) / c.w); pin.set("y", (pp.y - c.y) / c.h); pin.set("prop", true); pin.set("inside", 0.0); pin.set("dirs", (long)D(dir)); pin.set("excl", true);
+                    pins.push(pin); o.set("pins", pins); ops.push(o);
+                };
+                pinned(1, -40, -20, 0, 20, 0, 0, 8); pinned(2, 400, 80, 440, 120, 400, 100, 4);
+                Json ea = Json::obj(); ea.set("shape", 1); ea.set("cls", 1); Json eb = Json::obj(); eb.set("shape", 2); eb.set("cls", 1); a.set("src", ea); a.set("dst", eb); a.set("ctor", (long)r2.below(2));
+                Json cps = Json::arr(); cps.push(ptJ(T(c1, 0))); cps.push(ptJ(T(c2, 0))); a.set("checkpoints", cps);
+                ops.push(a);
+                { Json o = Json::obj(); o.set("op", "process"); ops.push(o); }
+                s.set("ops", ops);
+                return s;
+            }
             double cpx = 10.0 * r2.range(12, 30), bx = cpx + 10.0 * r2.range(3, 8);
             shape(0, 250, 600, 350, 700);             // far away: extra scan lines
             shape(1, 380, 20, 460, 80);               // right above the source of A
